@@ -269,7 +269,7 @@ PROPS = {
         "rule": ("case = (config, op, target, caller, mutations, bad-auth, chunk hack, engine); every case is non-trivial (at least one field is hostile); distinct by the full tuple."),
         "assumptions": ["in-process engine replicates runGateway wiring; TestC20P observes death of the shipped binary directly", "event sender, audit logger and metrics are off"],
         "jobs": [
-            {"run": "TestC20A", "quick": 24000, "thorough": 800000, "shards_quick": 12, "shards_thorough": 16},
+            {"run": "TestC20A", "quick": 18000, "thorough": 800000, "shards_quick": 12, "shards_thorough": 16},
             {"run": "TestC20P", "quick": 6000, "thorough": 100000, "shards_quick": 4, "shards_thorough": 16},
             {"run": "TestC20Sweep", "quick": 1, "thorough": 1, "shards_quick": 12, "shards_thorough": 16},
         ],
